@@ -777,6 +777,29 @@ type world struct {
 	earlier    []genuineRec
 	f14open    bool
 	hadError   bool // DoAPDU already returned an error in this session
+	kept       []keptPlain
+}
+
+// keptPlain is plaintext that DoAPDU handed to the caller earlier in the session: the property says
+// the caller never gets "different plaintext" - that includes plaintext changing under its hands later.
+type keptPlain struct {
+	got, want []byte
+}
+
+// keep records a delivered result; stale reports a kept result that has changed since.
+func (w *world) keep(out *iso7816.RApdu, err error) {
+	if err == nil && out != nil && len(out.Data) > 0 && len(w.kept) < 32 {
+		w.kept = append(w.kept, keptPlain{out.Data, bytes.Clone(out.Data)})
+	}
+}
+
+func (w *world) stale() string {
+	for i, k := range w.kept {
+		if !bytes.Equal(k.got, k.want) {
+			return fmt.Sprintf("the plaintext delivered by an earlier exchange of this session (#%d, %x) was changed by a later exchange (now %x)", i+1, k.want, k.got)
+		}
+	}
+	return ""
 }
 
 func (w *world) libSSC() []byte { return w.nfc.SM().SSC() }
@@ -871,6 +894,10 @@ func (w *world) genuineExchange(label string) {
 	}
 	sentBefore := w.lk.sent
 	out, err := w.nfc.DoAPDU(iso7816.NewCApdu(0x00, c.ins, c.p1, c.p2, c.data, c.ne), label)
+	if msg := w.stale(); msg != "" {
+		evid.Fail(w.rt, "stale-plaintext", nil, "%s", msg)
+	}
+	w.keep(out, err)
 	if w.lk.sent != sentBefore+1 {
 		evid.Fail(rt, "doapdu-transmissions", nil, "DoAPDU transmitted %d times", w.lk.sent-sentBefore)
 	}
@@ -956,6 +983,10 @@ func (w *world) adversarialExchange() (delivered present, wasErr bool) {
 		return pick.r
 	}
 	out, err := w.nfc.DoAPDU(iso7816.NewCApdu(0x00, c.ins, c.p1, c.p2, c.data, c.ne), "adversarial")
+	if msg := w.stale(); msg != "" {
+		evid.Fail(w.rt, "stale-plaintext", nil, "%s", msg)
+	}
+	w.keep(out, err)
 	delivered.Class = "delivered:" + delivered.Class
 	evid.Case("delivered-via-DoAPDU", true, delivered.Class+"|"+string(w.cipher), nil)
 	if msg := judge(delivered, out, err, w.libSSC()); msg != "" {
@@ -1029,6 +1060,10 @@ func (w *world) continuedExchange(label string, prev present, prevErr bool) (del
 		return unhex(delivered.Rsp)
 	}
 	out, err := w.nfc.DoAPDU(iso7816.NewCApdu(0x00, c.ins, c.p1, c.p2, c.data, c.ne), label)
+	if msg := w.stale(); msg != "" {
+		evid.Fail(w.rt, "stale-plaintext", nil, "%s", msg)
+	}
+	w.keep(out, err)
 	delivered.Class = "delivered:" + delivered.Class
 	evid.Case("delivered-via-DoAPDU", true, delivered.Class+"|"+string(w.cipher), nil)
 	if msg := judge(delivered, out, err, w.libSSC()); msg != "" {
